@@ -181,7 +181,7 @@ Definition lower (s : string) : string :=
                end) s.
 Definition parse_positional (arg def : string) : jv :=
   let key0 := match def with
-              | String "<" r => match take_until_gt r "" with Some (name, _) => name | None => r end
+              | String "<" r => match take_until_gt r "" with Some (name, _) => name | None => lower (strip_plus def) end
               | _ => lower (strip_plus def)
               end in
   let key := replace_char "-" "_" key0 in
